@@ -1,6 +1,6 @@
 (** C10 — adapters consume upstream once, in order, fused, and end exactly when done *)
 From FB Require Import Base Syntax World SlotMap Fub Ordered Adapters Step
-  WorldProofs FubProofs UnboundedProofs AdaptersProofs StepProofs Reach.
+  WorldProofs FubProofs UnboundedProofs AdaptersProofs StepProofs Reach TokenLedger UpstreamLedger.
 
 (** fused: in every reachable state an upstream that is still held has not ended (it is dropped
     in the very call in which it answers None) *)
@@ -55,3 +55,26 @@ Theorem C10_for_each_loop :
   /\ SlotMap.sm_cap (tasks (fe_q a')) = SlotMap.sm_cap (tasks (fe_q a)) /\ up_live (fe_up a').
 Proof. exact fec_poll_spec. Qed.
 Print Assumptions C10_for_each_loop.
+
+(** one poll of the upstream logs the answer of the pure step function [up_step] and moves the
+    upstream's state exactly as [up_step] does *)
+Theorem C10_upstream_poll_is_one_step :
+  forall (try : bool) (u : upstream) (t : nat) (w : world),
+  let '(u', r, w') := up_poll try u t w in
+  u' = fst (up_step try u)
+  /\ exists l, log w' = l ++ log w /\ upp l = [snd (up_step try u)].
+Proof. exact up_poll_ref. Qed.
+Print Assumptions C10_upstream_poll_is_one_step.
+
+(** whole histories of buffered_unordered / buffered_ordered / try_buffered_* /
+    for_each_concurrent (any interleaving of polls, wake-ups, waker clones and drops): the polls
+    of the upstream, oldest first, are exactly the answers that upstream gives when polled that
+    many times in sequence on its own - every step pulled once, in order, none skipped, none
+    repeated (and, C10_never_polled_after_end, none after the end) *)
+Theorem C10_upstream_polled_once_in_order :
+  forall (P : params) (ty : ctype) (p : cparams) (inits : list (N * script)) (ups : list upstep) (rest : list op),
+  u_ctype ty = true ->
+  let U := uppolls_in P init_state (OBuild ty p inits ups :: rest) in
+  U = fst (up_run (u_try ty) (mk_upstream ups (p_hlo p) (p_hhi p)) (length U)).
+Proof. exact upstream_polled_sequentially. Qed.
+Print Assumptions C10_upstream_polled_once_in_order.
